@@ -12,8 +12,10 @@ use crate::cli;
 use crate::color::{self, ColorMode};
 use crate::delta::State;
 use crate::fatal;
+use crate::features::line_numbers;
 use crate::features::navigate;
 use crate::features::side_by_side::{self, ansifill, LeftRight};
+use crate::format;
 use crate::git_config::GitConfig;
 use crate::handlers;
 use crate::handlers::blame::parse_blame_line_numbers;
@@ -235,6 +237,28 @@ impl From<cli::Opt> for Config {
 
         if blame_palette.is_empty() {
             fatal("Option 'blame-palette' must not be empty.")
+        }
+
+        // These values are otherwise parsed only while the first hunk or blame line is
+        // rendered, i.e. after the pager has been started; `fatal()` exits without waiting
+        // for the pager, so report an invalid value now.
+        for color in &blame_palette {
+            color::parse_color(color, opt.computed.true_color, opt.git_config.as_ref());
+        }
+        format::parse_line_number_format(
+            &opt.blame_format,
+            &handlers::blame::BLAME_PLACEHOLDER_REGEX,
+            false,
+        );
+        for format_string in [
+            &opt.line_numbers_left_format,
+            &opt.line_numbers_right_format,
+        ] {
+            format::parse_line_number_format(
+                format_string,
+                &line_numbers::LINE_NUMBERS_PLACEHOLDER_REGEX,
+                false,
+            );
         }
 
         let file_added_label = opt.file_added_label;
